@@ -163,6 +163,82 @@ def deregister(ctx, rule='C10.deregister'):
     return res
 
 
+def blocking_registry(ctx, rule='C10.deregister'):
+    """every acquisition of the reader-registry lock is blocking: a skipped critical section leaves a reader registered (or unregistered) forever"""
+    res = []
+    F = ctx.facts
+    L = c09.locks_of(ctx)
+    n = 0
+    for fn in F.fns:
+        for (bb, name, mode, tok, tr) in L.info(fn).sites:
+            if name != c03.REGISTRY_LOCK:
+                continue
+            n += 1
+            if tr:
+                res.append(bad(rule, '%s | registry lock taken with try_lock' % fn.qual,
+                               '%s takes the open-reader registry lock at %s with a non-blocking try_lock: when the lock is busy the critical section is skipped, so a dropped reader stays '
+                               'registered forever (its snapshot\'s pages are never released) or a new reader is never registered' % (fn.qual, fn.loc(bb)), where=fn.loc(bb)))
+    f = floor(rule, 'acquisitions of the reader-registry lock', n, 2)
+    if f:
+        res.append(f)
+    if not any(not r.ok for r in res):
+        res.append(ok(rule, 'all %d acquisitions of the reader-registry lock are blocking' % n, sites=n))
+    return res
+
+
+def release_per_entry(ctx, rule='C10.release-per-entry'):
+    """the release role decides entry by entry: a pending entry is removed only under a comparison of ITS id with the bound"""
+    res = []
+    try:
+        (rel,) = ctx.need('release-role')
+    except AnchorError as e:
+        return [unresolved(rule, str(e))]
+    from effects import fn_effect_sites, REMOVING
+    fn = rel
+    du = ctx.du(fn)
+    sites = [(bb, how) for (bb, adt, field, how) in fn_effect_sites(ctx.facts, fn) if adt and last_seg(adt) == 'Freelist' and field == 'pending_pages' and how in REMOVING]
+    f = floor(rule, 'removals from pending_pages in the release role', len(sites), 1)
+    if f:
+        return [f]
+    bound = [i for i in range(2, fn.argc + 1)]
+    for bb, how in sorted(set(sites)):
+        t = fn.term(bb)
+        good = False
+        why = ''
+        if how in ('remove', 'remove_entry') and len(t['args']) > 1:
+            kl = op_local(t['args'][1])
+            kroot = du.root_of(kl) if kl is not None else None
+            klocs, _ = du.slice_operand(t['args'][1])
+            for (a, sx) in fn.control_deps_transitive(bb):
+                at = fn.term(a)
+                if at['k'] != 'switch':
+                    continue
+                dl = op_local(at['discr'])
+                ds = du.defs.get(dl, []) if dl is not None else []
+                if len(ds) == 1 and ds[0][1] is not None:
+                    st = fn.blocks[ds[0][0]]['stmts'][ds[0][1]]
+                    if st['rv']['k'] == 'bin' and st['rv']['op'] in ('Lt', 'Le', 'Gt', 'Ge'):
+                        la, aa = du.slice_operand(st['rv']['a'])
+                        lb, ab = du.slice_operand(st['rv']['b'])
+                        for (kside, bside) in (((la, aa), (lb, ab)), ((lb, ab), (la, aa))):
+                            if (klocs & kside[0]) and any(x[0] == 'arg' and x[1] in bound for x in bside[1]):
+                                good = True
+                                why = 'the removed key is compared with the bound'
+        elif how in ('split_off', 'retain', 'extract_if', 'range', 'range_mut'):
+            _, aa = du.slice_operand(t['args'][1]) if len(t['args']) > 1 else (None, set())
+            if any(x[0] == 'arg' and x[1] in bound for x in aa):
+                good = True
+                why = 'a range operation keyed by the bound'
+        if good:
+            res.append(ok(rule, 'pending entry removed at %s: %s' % (fn.loc(bb), why), sites=1))
+        else:
+            res.append(bad(rule, '%s | pending entries removed without comparing each id with the bound (%s)' % (fn.qual, how),
+                           'the release role removes pending entries at %s with `%s` that is not controlled by a comparison of the removed entry\'s own transaction id with the bound: entries '
+                           'newer than the oldest reader are released with it (pages of a live snapshot get reused), or nothing is released while any newer entry exists (the file grows)'
+                           % (fn.loc(bb), how), where=fn.loc(bb)))
+    return res
+
+
 def run(ctx, tier):
     ob = commit.obligations(ctx)
     results = []
@@ -172,6 +248,8 @@ def run(ctx, tier):
     results += c02.reload_rule(ctx, rule='C10.reload')
     results += [r for r in ob['O5']]
     results += deregister(ctx)
+    results += blocking_registry(ctx)
+    results += release_per_entry(ctx)
     results += c03.register(ctx, rule='C10.register')
     return dict(
         results=results, stats=dict(ctx.stats),
